@@ -8,7 +8,7 @@ Extraction Language OCaml.
 Set Extraction AccessOpaque.
 Cd "_extract_muxfer".
 Separate Extraction MuXferModel.xstep MuXferModel.xstep_thr MuXferModel.xbegin MuXferModel.xinit MuXferModel.xrun
-  MuXferModel.cvq MuXferModel.mw MuXferModel.xget
+  MuXferModel.cvq MuXferModel.mw MuXferModel.xget MuXferModel.nrec
   MuModel.word MuModel.queue MuModel.get MuModel.waiting MuModel.sem
   MuXferReplay.xpush_op MuXferReplay.xinit_n MuXferReplay.xpc_code MuXferReplay.mu_busy MuXferReplay.held_of
   MuXferReplay.v_target MuXferReplay.mu_sem_pc MuXferReplay.is_desig_entry MuXferReplay.mu_spin_free
